@@ -222,6 +222,15 @@ func genC04(t *Tape) *Plan {
 	k.V5Pct = 65
 	k.CleanPct = 100
 	k.MultiFilterPct = 30
+	if t.Draw("c04.sessions", 3) == 0 {
+		// the options of a subscription also hold for a session that is resumed (by a reconnect or a takeover) after
+		// the subscription was replaced by a later SUBSCRIBE to the same filter: few filters, many SUBSCRIBEs,
+		// persistent sessions, drops and reconnects
+		k.Filters = []string{"t", "t/#", "u"}
+		k.CleanPct = 10
+		k.ExpiryChoices = []uint32{300}
+		k.WConnect, k.WSub, k.WUnsub, k.WPub, k.WDisc, k.WDrop = 4, 8, 1, 9, 1, 2
+	}
 	g := NewGen(t, &k, "C04")
 	baseSched(t, &g.plan.Cfg)
 	g.plan.Cfg.MaxQos = byte(t.Draw("c04.maxqos", 3))
